@@ -1,24 +1,79 @@
 #!/usr/bin/env python3
-"""Maps a property id to the harness crate (= binary name) that serves it."""
-import sys
-MAP = {
-    "vh-misc": ["C21", "C26", "C32", "C46", "C47"],
-    "vh-cry": ["C34", "C36", "C37", "C38", "C45"],
-    "vh-rt": ["C01", "C02", "C03", "C04", "C05", "C06", "C08", "C09", "C10", "C11", "C12",
-              "C13", "C14", "C16", "C17", "C18", "C19", "C20"],
-    "vh-pol": ["C22", "C23", "C24", "C25", "C27", "C28", "C30", "C31"],
-    "vh-vmrt": ["C07", "C29", "C35"],
-    "vh-afc": ["C39"],
-    "vh-crash": ["C15"],
-    "vh-sched": ["C33", "C40", "C41", "C42", "C43", "C44"],
-}
+"""Property table: maps a property id to its harness crate and MANIFEST metadata.
+`python3 bin/propmap.py Cxx` prints the crate; `python3 bin/propmap.py --manifest` rewrites MANIFEST.json."""
+import json, os, sys
+
+HERE = os.path.dirname(os.path.dirname(os.path.abspath(__file__)))
+
+# id: (crate, built?, level, technique, level text, level note)
+P = {}
+def add(pid, crate, built, level, technique, text, note):
+    P[pid] = dict(crate=crate, built=built, level=level, technique=technique, text=text, note=note)
+
+add("C21", "vh-misc", True, "exploration",
+    "model-based property testing (proptest op sequences vs Vec model)",
+    "Generated op sequences in the two usage modes of TraversalQueue are run against the real queue and a Vec model written from the doc comments; every return value, drained set and the final contents must agree.",
+    "Dedup and duplicate modes are not mixed (no caller does; the docs do not define it). Held only on the sequences explored.")
+add("C46", "vh-misc", True, "exploration",
+    "round-trip + differential property testing (proptest) against an independent base58 codec",
+    "Generated ids and texts: Display/FromStr/decode/serde_json/postcard round trips, and parse results compared with an independent big-integer base58 decoder written in the harness.",
+    "Trusts serde_json/postcard and the harness's reference codec. Held only on the inputs explored.")
+add("C47", "vh-misc", True, "exploration",
+    "property testing with guard-byte frame oracle (proptest)",
+    "Generated multi-fragment Display values are written into buffers of every size around the exact fit inside a guard frame; text, NUL position, reported length, error and guard bytes are checked against std's own formatting.",
+    "Expected text comes from std's String formatter. Held only on the inputs explored.")
+
 def crate_of(p):
-    for k, v in MAP.items():
-        if p in v:
-            return k
-    return None
+    return P[p]["crate"] if p in P else None
+
+def manifest():
+    props = [json.loads(l) for l in open(os.path.join(HERE, "properties.jsonl"))]
+    checks, na = [], []
+    for pr in props:
+        pid = pr["id"]
+        m = P.get(pid)
+        if not m or not m["built"]:
+            na.append({"property_id": pid, "reason": "check not built yet in this session (planned in DESIGN.md section 2; harness work in progress)"})
+            continue
+        c = {
+            "property_id": pid,
+            "quick_cmd": f"bin/check {pid} --tier quick",
+            "thorough_cmd": f"bin/check {pid} --tier thorough",
+            "evidence_file": f"/verif/evidence/{pid}.json",
+            "replay_cmd_template": f"bin/check {pid} --replay {{path}}",
+            "engine": m["crate"],
+            "level_claimed": {"category": m["level"], "text": m["text"], "design_ref": f"DESIGN.md section 2 / {pid}"},
+            "level_note": m["note"],
+            "technique": m["technique"],
+        }
+        checks.append(c)
+    man = {
+        "version": 1,
+        "setup_cmd": "bin/setup",
+        "hooks": {
+            "guard": "none",
+            "enable": "no source hooks: harness crates use path dependencies on /repo/crates/* and rebuild from the working tree",
+            "baseline_off_cmd": "cd /repo && cargo test --workspace --no-fail-fast --offline",
+            "source_commits": [],
+            "add_only": True,
+        },
+        "engines": [
+            {"name": c, "path": f"harness/{c[3:]}", "serves_properties": sorted(p for p, m in P.items() if m["crate"] == c and m["built"]),
+             "kind_free_text": "proptest-driven harness binary (vcommon driver: seeded multi-worker TestRunner, shrinking, JSON replay files)"}
+            for c in sorted({m["crate"] for m in P.values() if m["built"]})
+        ],
+        "checks": checks,
+        "not_applicable": na,
+        "notes": "All checks are property-based tests / fuzzing with explicit oracles; see DESIGN.md. Exit 2 = inconclusive (harness build failure, watchdog).",
+    }
+    json.dump(man, open(os.path.join(HERE, "MANIFEST.json"), "w"), indent=1)
+    print(f"MANIFEST.json: {len(checks)} checks, {len(na)} not_applicable")
+
 if __name__ == "__main__":
-    c = crate_of(sys.argv[1]) if len(sys.argv) > 1 else None
-    if not c:
-        sys.exit(1)
-    print(c)
+    if len(sys.argv) > 1 and sys.argv[1] == "--manifest":
+        manifest()
+    else:
+        c = crate_of(sys.argv[1]) if len(sys.argv) > 1 else None
+        if not c:
+            sys.exit(1)
+        print(c)
